@@ -77,13 +77,13 @@ Proof.
     rewrite zlen_app, zlen_cons, Z.even_add, Ep in Hev.
     destruct s as [|hi s].
     + exfalso. rewrite zlen_nil in Hev. simpl in Hev. discriminate.
-    + rewrite !(words16_app_even n) by exact Hn. cbn [words16].
+    + rewrite !(words16_app_even n p) by exact Hn. cbn [words16].
       rewrite !sum_list_app. cbn [sum_list fold_right].
       apply mod_ne_of_small_diff; lia.
   - destruct (odd_length_split p Ep) as (p' & lo & -> & Ep').
     destruct (even_length_half p' Ep') as [n Hn].
     rewrite <- !app_assoc. cbn [app].
-    rewrite !(words16_app_even n) by exact Hn. cbn [words16].
+    rewrite !(words16_app_even n p') by exact Hn. cbn [words16].
     rewrite !sum_list_app. cbn [sum_list fold_right].
     apply mod_ne_of_small_diff; lia.
 Qed.
@@ -111,7 +111,7 @@ Lemma sum16_field pre v post : Z.even (zlen pre) = true -> 0 <= v < 65536 ->
   sum16 (pre ++ le_enc 2 v ++ post) = (sum16 (pre ++ [0; 0] ++ post) + v) mod 65536.
 Proof.
   intros Ep Hv. destruct (even_length_half pre Ep) as [n Hn]. unfold sum16.
-  rewrite !(words16_app_even n) by exact Hn.
+  rewrite !(words16_app_even n pre) by exact Hn.
   rewrite (words16_app_even 1 (le_enc 2 v)) by reflexivity.
   rewrite (words16_app_even 1 [0; 0]) by reflexivity.
   rewrite le_enc2_word by exact Hv. cbn [words16].
@@ -149,7 +149,9 @@ Proof.
   - rewrite <- (firstn_skipn i b) at 1. f_equal.
     apply nth_error_ext. intros [|k].
     + rewrite nth_error_skipn', Nat.add_0_r. exact Hx.
-    + cbn [nth_error]. rewrite !nth_error_skipn'. f_equal. lia.
+    + change (nth_error (x :: skipn (S i) b) (S k)) with (nth_error (skipn (S i) b) k).
+      rewrite !nth_error_skipn'.
+      replace (i + S k)%nat with (S i + k)%nat by lia. reflexivity.
   - apply nth_error_ext. intros k.
     destruct (Nat.lt_ge_cases k i) as [Hk|Hk].
     + rewrite nth_error_app1 by (rewrite firstn_length; lia).
@@ -216,11 +218,13 @@ Qed.
 Lemma sub_zfirstn (b : bytes) E off len : 0 <= off -> off + len <= E ->
   sub off len (zfirstn E b) = sub off len b.
 Proof.
-  intros H0 H. rewrite <- (zfirstn_zskipn E b) at 2.
+  intros H0 H. destruct (Z_le_gt_dec len 0) as [Hl|Hl].
+  { unfold sub, zfirstn. replace (Z.to_nat len) with O by lia. reflexivity. }
+  rewrite <- (zfirstn_zskipn E b) at 2.
   destruct (Z_le_gt_dec E (zlen b)) as [Hle|Hgt].
   - symmetry. apply sub_app_l; [lia|]. rewrite zlen_zfirstn; lia.
-  - unfold zfirstn at 2. unfold zskipn at 2. unfold zlen in Hgt.
-    rewrite skipn_all2 by lia. rewrite app_nil_r. reflexivity.
+  - replace (zskipn E b) with (@nil Z); [rewrite app_nil_r; reflexivity|].
+    unfold zskipn. unfold zlen in Hgt. rewrite skipn_all2 by lia. reflexivity.
 Qed.
 
 Lemma rd_zfirstn (b : bytes) E off w : 0 <= off -> off + Z.of_nat w <= E ->
@@ -266,7 +270,7 @@ Lemma single_change_sub b i b' off len : single_change b i b' -> 0 <= off <= i -
   single_change (sub off len b) (i - off) (sub off len b').
 Proof.
   intros (p & x & y & s & -> & -> & <- & Hne & Hx & Hy) H0 H1.
-  exists (zskipn off p), x, y (zfirstn (len - (zlen p - off) - 1) s).
+  exists (zskipn off p), x, y, (zfirstn (len - (zlen p - off) - 1) s).
   assert (Hq : zlen (zskipn off p) = zlen p - off) by (apply zlen_zskipn; lia).
   unfold sub. rewrite !zskipn_app_le by lia.
   rewrite !zfirstn_app_gt by lia. rewrite Hq.
@@ -289,7 +293,7 @@ Qed.
 Lemma le_dec_app a b : le_dec (a ++ b) = le_dec a + 256 ^ zlen a * le_dec b.
 Proof.
   induction a as [|x a IH]; cbn [app le_dec].
-  - rewrite zlen_nil. lia.
+  - change (zlen (@nil Z)) with 0. lia.
   - rewrite IH, zlen_cons. rewrite Z.pow_add_r by (pose proof (zlen_nonneg a); lia). lia.
 Qed.
 
@@ -305,4 +309,697 @@ Proof.
   intros H H0 H1. unfold rd.
   destruct (single_change_sub b i b' off (Z.of_nat w) H H0 H1) as (p & x & y & s & -> & -> & _ & Hne & _).
   intros E. apply (le_dec_single_change p x y s Hne). congruence.
+Qed.
+
+(* ================= Part C: the validate model — equations, totality, inversion ================= *)
+
+Lemma vlist_eq fx l :
+  (fix vlist (l : list node) : outcome (list Z) :=
+     match l with
+     | [] => Ok []
+     | x :: r => do a <- validate_gen fx x; do b <- vlist r; Ok (a ++ b)
+     end) l = validate_list_gen fx l.
+Proof. induction l as [|x l IH]; [reflexivity|]. cbn [validate_list_gen]. rewrite <- IH. reflexivity. Qed.
+
+Lemma validate_gen_vol fx h buf kids : validate_gen fx (NVol h buf kids) =
+  (do a <- validate_vol h buf; do b <- validate_list_gen fx kids; Ok (a ++ b)).
+Proof. cbn [validate_gen]. rewrite vlist_eq. reflexivity. Qed.
+
+Lemma validate_gen_file fx h buf kids : validate_gen fx (NFile h buf kids) =
+  (do a <- validate_file_gen fx h buf; do b <- validate_list_gen fx kids; Ok (a ++ b)).
+Proof. cbn [validate_gen]. rewrite vlist_eq. reflexivity. Qed.
+
+Lemma validate_gen_sec fx h buf kids : validate_gen fx (NSec h buf kids) =
+  (do b <- validate_list_gen fx kids; Ok (validate_sec h buf ++ b)).
+Proof. cbn [validate_gen]. rewrite vlist_eq. reflexivity. Qed.
+
+Fixpoint node_ind2 (P : node -> Prop)
+  (HP : forall o b, P (NPad o b))
+  (HS : forall h b kids, Forall P kids -> P (NSec h b kids))
+  (HF : forall h b kids, Forall P kids -> P (NFile h b kids))
+  (HV : forall h b kids, Forall P kids -> P (NVol h b kids))
+  (n : node) {struct n} : P n :=
+  let go := fix go (l : list node) : Forall P l :=
+    match l with
+    | [] => Forall_nil P
+    | x :: r => Forall_cons x (node_ind2 P HP HS HF HV x) (go r)
+    end in
+  match n with
+  | NPad o b => HP o b
+  | NSec h b kids => HS h b kids (go kids)
+  | NFile h b kids => HF h b kids (go kids)
+  | NVol h b kids => HV h b kids (go kids)
+  end.
+
+Ltac unfold_c09 := unfold c09_fv_min_size, c09_fv_fixed_header_size, c09_file_header_min,
+  c09_file_header_ext_min, c09_section_ext_min, c09_empty_body_checksum in *.
+
+Lemma validate_vol_total h buf : exists l, validate_vol h buf = Ok l.
+Proof.
+  unfold validate_vol. unfold_c09.
+  destruct (zlen buf <? 64) eqn:E1; [eauto|].
+  destruct (v_hdrlen h <? 64) eqn:E2; [eauto|].
+  destruct (zlen buf <? v_hdrlen h) eqn:E3; [eauto|].
+  rewrite slice_ok by lia. cbn [of_opt bind]. eauto.
+Qed.
+
+Lemma checksum_header_total h buf :
+  (if attr_large (f_attr h) then 32 else 24) <= zlen buf ->
+  checksum_header h buf =
+    Ok ((sum8 (sub 0 (if attr_large (f_attr h) then 32 else 24) buf) - f_ckf h - f_state h) mod 256).
+Proof.
+  intros H. unfold checksum_header. unfold_c09.
+  rewrite slice_ok by (destruct (attr_large (f_attr h)); lia).
+  cbn [of_opt bind]. rewrite Z.sub_0_r. reflexivity.
+Qed.
+
+Lemma validate_file_total fx h buf : exists l, validate_file_gen fx h buf = Ok l.
+Proof.
+  unfold validate_file_gen. unfold_c09.
+  destruct (zlen buf <? 24) eqn:E1; [eauto|].
+  destruct (f_size3 h =? 16777215) eqn:Es.
+  - destruct (zlen buf <? 32) eqn:E2; [eauto|].
+    destruct (attr_large (f_attr h)) eqn:El; cbn [negb]; [|eauto].
+    destruct (negb (zlen buf =? f_ext h)); [eauto|].
+    rewrite checksum_header_total by (rewrite El; lia). cbn [bind].
+    destruct (negb (attr_checksum (f_attr h)) && negb (f_ckf h =? 170)); [eauto|].
+    destruct (attr_checksum (f_attr h)); [|eauto].
+    rewrite slice_ok by lia. cbn [of_opt bind]. eauto.
+  - destruct (attr_large (f_attr h)) eqn:El; [eauto|].
+    destruct (negb (f_size3 h =? f_ext h)); [eauto|].
+    destruct (negb (zlen buf =? f_ext h)); [eauto|].
+    rewrite checksum_header_total by (rewrite El; lia). cbn [bind].
+    destruct (negb (attr_checksum (f_attr h)) && negb (f_ckf h =? 170)); [eauto|].
+    destruct (attr_checksum (f_attr h)); [|eauto].
+    rewrite slice_ok by lia. cbn [of_opt bind]. eauto.
+Qed.
+
+Lemma validate_list_total fx l : Forall (fun n => exists r, validate_gen fx n = Ok r) l ->
+  exists r, validate_list_gen fx l = Ok r.
+Proof.
+  induction 1 as [|x l [rx Hx] _ [rl Hl]]; cbn [validate_list_gen]; [eauto|].
+  rewrite Hx, Hl. cbn [bind]. eauto.
+Qed.
+
+(* validate never panics *)
+Lemma validate_total fx n : exists l, validate_gen fx n = Ok l.
+Proof.
+  induction n as [o b|h b kids IH|h b kids IH|h b kids IH] using node_ind2.
+  - cbn. eauto.
+  - rewrite validate_gen_sec. destruct (validate_list_total fx kids IH) as [r ->]. cbn [bind]. eauto.
+  - rewrite validate_gen_file. destruct (validate_file_total fx h b) as [a ->].
+    destruct (validate_list_total fx kids IH) as [r ->]. cbn [bind]. eauto.
+  - rewrite validate_gen_vol. destruct (validate_vol_total h b) as [a ->].
+    destruct (validate_list_total fx kids IH) as [r ->]. cbn [bind]. eauto.
+Qed.
+
+Lemma validate_list_total' fx l : exists r, validate_list_gen fx l = Ok r.
+Proof. apply validate_list_total. apply Forall_forall. intros n _. apply validate_total. Qed.
+
+Lemma Ok_inj {A} (a b : A) : Ok a = Ok b -> a = b.
+Proof. intros H. injection H. auto. Qed.
+
+Lemma if_nil_true (c : bool) (x : Z) : (if c then [] else [x]) = [] -> c = true.
+Proof. destruct c; [reflexivity|discriminate]. Qed.
+
+(* what a clean volume check says *)
+Lemma validate_vol_clean h buf : validate_vol h buf = Ok [] ->
+  64 <= v_hdrlen h <= zlen buf /\
+  v_hdrlen h = 56 + 8 * (zlen (v_blocks h) + 1) /\
+  known_fv_guid (v_guid h) = true /\ v_rev h = 2 /\ v_sig h = c09_fv_signature /\
+  v_length h = zlen buf /\ sum16 (sub 0 (v_hdrlen h) buf) = 0.
+Proof.
+  unfold validate_vol. unfold_c09.
+  destruct (zlen buf <? 64) eqn:E1; [discriminate|].
+  destruct (v_hdrlen h <? 64) eqn:E2; [discriminate|].
+  destruct (zlen buf <? v_hdrlen h) eqn:E3; [discriminate|].
+  rewrite slice_ok by lia. cbn [of_opt bind]. rewrite Z.sub_0_r.
+  intros H; apply Ok_inj in H.
+  apply app_eq_nil in H as [H1 H]. apply app_eq_nil in H as [H2 H].
+  apply app_eq_nil in H as [H3 H]. apply app_eq_nil in H as [H4 H].
+  apply app_eq_nil in H as [H5 H6].
+  apply if_nil_true in H1, H2, H3, H4, H5.
+  destruct (negb (Z.even (zlen (sub 0 (v_hdrlen h) buf)))); [discriminate|].
+  apply if_nil_true in H6.
+  repeat split; try lia; try assumption.
+Qed.
+
+(* what a clean file check says *)
+Definition file_hs (h : filehdr) : Z := if attr_large (f_attr h) then 32 else 24.
+
+Lemma validate_file_clean fx h buf : validate_file_gen fx h buf = Ok [] ->
+  file_hs h <= zlen buf /\ zlen buf = f_ext h /\
+  (f_size3 h = 16777215 <-> attr_large (f_attr h) = true) /\
+  (f_size3 h <> 16777215 -> f_size3 h = f_ext h) /\
+  (sum8 (sub 0 (file_hs h) buf) - f_ckf h - f_state h) mod 256 = 0 /\
+  (attr_checksum (f_attr h) = false -> f_ckf h = 170) /\
+  (attr_checksum (f_attr h) = true ->
+     (if fx then (sum8 (sub (file_hs h) (zlen buf - file_hs h) buf) + f_ckf h) mod 256
+      else sum8 (sub (file_hs h) (zlen buf - file_hs h) buf)) = 0).
+Proof.
+  unfold validate_file_gen, file_hs. unfold_c09.
+  destruct (zlen buf <? 24) eqn:E1; [discriminate|].
+  destruct (f_size3 h =? 16777215) eqn:Es.
+  - destruct (zlen buf <? 32) eqn:E2; [discriminate|].
+    destruct (attr_large (f_attr h)) eqn:El; cbn [negb]; [|discriminate].
+    destruct (negb (zlen buf =? f_ext h)) eqn:E3; [discriminate|].
+    rewrite checksum_header_total by (rewrite El; lia). rewrite El. cbn [bind].
+    destruct (attr_checksum (f_attr h)) eqn:Ec; cbn [negb andb].
+    + rewrite slice_ok by lia. cbn [of_opt bind].
+      intros H; apply Ok_inj in H. apply app_eq_nil in H as [H1 H2]. apply if_nil_true in H1, H2.
+      repeat split; try lia; try discriminate; try (intros _; destruct fx; lia).
+    + destruct (f_ckf h =? 170) eqn:Ek; cbn [negb].
+      * intros H; apply Ok_inj in H. apply if_nil_true in H. repeat split; try lia; try discriminate.
+      * intros H; apply Ok_inj in H. apply app_eq_nil in H as [_ H]. discriminate.
+  - destruct (attr_large (f_attr h)) eqn:El; [discriminate|].
+    destruct (negb (f_size3 h =? f_ext h)) eqn:E4; [discriminate|].
+    destruct (negb (zlen buf =? f_ext h)) eqn:E3; [discriminate|].
+    rewrite checksum_header_total by (rewrite El; lia). rewrite El. cbn [bind].
+    destruct (attr_checksum (f_attr h)) eqn:Ec; cbn [negb andb].
+    + rewrite slice_ok by lia. cbn [of_opt bind].
+      intros H; apply Ok_inj in H. apply app_eq_nil in H as [H1 H2]. apply if_nil_true in H1, H2.
+      repeat split; try lia; try discriminate; try (intros _; destruct fx; lia).
+    + destruct (f_ckf h =? 170) eqn:Ek; cbn [negb].
+      * intros H; apply Ok_inj in H. apply if_nil_true in H. repeat split; try lia; try discriminate.
+      * intros H; apply Ok_inj in H. apply app_eq_nil in H as [_ H]. discriminate.
+Qed.
+
+(* a report anywhere below a node is a report of the node *)
+Definition reports_gen (fx : bool) (n : node) : Prop := exists l, validate_gen fx n = Ok l /\ l <> [].
+Definition reports := reports_gen true.
+
+Lemma validate_list_reports fx kids f : In f kids -> reports_gen fx f ->
+  exists l, validate_list_gen fx kids = Ok l /\ l <> [].
+Proof.
+  induction kids as [|x kids IH]; [intros []|].
+  intros [->|Hin] Hr; cbn [validate_list_gen].
+  - destruct Hr as (lf & -> & Hne). destruct (validate_list_total' fx kids) as [r ->].
+    cbn [bind]. eexists; split; [reflexivity|]. destruct lf; [congruence|discriminate].
+  - destruct (validate_total fx x) as [a ->]. destruct (IH Hin Hr) as (l & -> & Hne).
+    cbn [bind]. eexists; split; [reflexivity|]. intros E. apply app_eq_nil in E as [_ E]. auto.
+Qed.
+
+Lemma reports_child_vol fx h buf kids f : In f kids -> reports_gen fx f -> reports_gen fx (NVol h buf kids).
+Proof.
+  intros Hin Hr. unfold reports_gen. rewrite validate_gen_vol.
+  destruct (validate_vol_total h buf) as [a ->].
+  destruct (validate_list_reports fx kids f Hin Hr) as (l & -> & Hne). cbn [bind].
+  eexists; split; [reflexivity|]. intros E. apply app_eq_nil in E as [_ E]. auto.
+Qed.
+
+Lemma reports_child_file fx h buf kids f : In f kids -> reports_gen fx f -> reports_gen fx (NFile h buf kids).
+Proof.
+  intros Hin Hr. unfold reports_gen. rewrite validate_gen_file.
+  destruct (validate_file_total fx h buf) as [a ->].
+  destruct (validate_list_reports fx kids f Hin Hr) as (l & -> & Hne). cbn [bind].
+  eexists; split; [reflexivity|]. intros E. apply app_eq_nil in E as [_ E]. auto.
+Qed.
+
+Lemma reports_child_sec fx h buf kids f : In f kids -> reports_gen fx f -> reports_gen fx (NSec h buf kids).
+Proof.
+  intros Hin Hr. unfold reports_gen. rewrite validate_gen_sec.
+  destruct (validate_list_reports fx kids f Hin Hr) as (l & -> & Hne). cbn [bind].
+  eexists; split; [reflexivity|]. intros E. apply app_eq_nil in E as [_ E]. auto.
+Qed.
+
+Lemma reports_vol_self fx h buf kids l : validate_vol h buf = Ok l -> l <> [] ->
+  reports_gen fx (NVol h buf kids).
+Proof.
+  intros Hv Hne. unfold reports_gen. rewrite validate_gen_vol, Hv.
+  destruct (validate_list_total' fx kids) as [r ->]. cbn [bind].
+  eexists; split; [reflexivity|]. destruct l; [congruence|discriminate].
+Qed.
+
+Lemma reports_file_self fx h buf kids l : validate_file_gen fx h buf = Ok l -> l <> [] ->
+  reports_gen fx (NFile h buf kids).
+Proof.
+  intros Hv Hne. unfold reports_gen. rewrite validate_gen_file, Hv.
+  destruct (validate_list_total' fx kids) as [r ->]. cbn [bind].
+  eexists; split; [reflexivity|]. destruct l; [congruence|discriminate].
+Qed.
+
+(* a clean tree has clean nodes *)
+Lemma validate_list_clean fx kids : validate_list_gen fx kids = Ok [] ->
+  Forall (fun n => validate_gen fx n = Ok []) kids.
+Proof.
+  induction kids as [|x kids IH]; [constructor|]. cbn [validate_list_gen].
+  destruct (validate_total fx x) as [a Ha]. rewrite Ha.
+  destruct (validate_list_total' fx kids) as [r Hr]. rewrite Hr. cbn [bind].
+  intros E; apply Ok_inj in E. apply app_eq_nil in E as [-> ->]. constructor; auto.
+Qed.
+
+Lemma validate_vol_node_clean fx h buf kids : validate_gen fx (NVol h buf kids) = Ok [] ->
+  validate_vol h buf = Ok [] /\ Forall (fun n => validate_gen fx n = Ok []) kids.
+Proof.
+  rewrite validate_gen_vol. destruct (validate_vol_total h buf) as [a ->].
+  destruct (validate_list_total' fx kids) as [r Hr]. rewrite Hr. cbn [bind].
+  intros E; apply Ok_inj in E. apply app_eq_nil in E as [-> ->]. split; [reflexivity|].
+  apply validate_list_clean. exact Hr.
+Qed.
+
+Lemma validate_file_node_clean fx h buf kids : validate_gen fx (NFile h buf kids) = Ok [] ->
+  validate_file_gen fx h buf = Ok [].
+Proof.
+  rewrite validate_gen_file. destruct (validate_file_total fx h buf) as [a ->].
+  destruct (validate_list_total' fx kids) as [r ->]. cbn [bind].
+  intros E; apply Ok_inj in E. apply app_eq_nil in E as [-> _]. reflexivity.
+Qed.
+
+(* ================= Part D: the volume header ================= *)
+
+Definition fv_has_ext (data : bytes) : bool :=
+  negb (rd 52 2 data =? 0) && (20 <=? rd 32 8 data) && (rd 52 2 data <? rd 32 8 data - 20).
+Definition fv_extsize (data : bytes) : Z :=
+  if fv_has_ext data then rd (rd 52 2 data + 16) 4 data else 0.
+Definition fv_doff (data : bytes) : Z :=
+  align8 (if fv_has_ext data then rd 52 2 data + fv_extsize data else rd 48 2 data).
+Definition fv_hdr (data : bytes) (fvoff : Z) (res : bool) (blocks : list (Z * Z)) (fs : Z) : volhdr :=
+  mkVol (sub 0 16 data) (sub 16 16 data) (rd 32 8 data) (rd 40 4 data) (rd 44 4 data) (rd 48 2 data)
+        (rd 50 2 data) (rd 52 2 data) (rd 54 1 data) (rd 55 1 data) blocks
+        (if fv_has_ext data then sub (rd 52 2 data) 16 data else [])
+        (fv_extsize data)
+        (fv_doff data) fvoff res fs.
+
+Lemma fv_body_inv rf pol data fvoff res n pol' :
+  fv_body rf pol data fvoff res = Ok (n, pol') ->
+  exists blocks pol1 kids fs,
+    n = NVol (fv_hdr data fvoff res blocks fs) (sub 0 (rd 32 8 data) data) kids /\
+    parse_blocks (Z.to_nat (zlen data) + 1) (zskipn 56 data) = Ok blocks /\
+    set_polarity pol (fv_polarity (rd 44 4 data)) = Some pol1 /\
+    64 <= zlen data /\ 64 <= rd 32 8 data <= zlen data /\
+    ((supported_fv (sub 16 16 data) = false /\ kids = []) \/
+     (supported_fv (sub 16 16 data) = true /\
+      files_loop rf (Z.to_nat (zlen data) + 1) data (rd 32 8 data) pol1 (fv_doff data)
+        = Ok (kids, pol', fs))).
+Proof.
+  unfold fv_body. cbv zeta.
+  destruct (zlen data <? 64) eqn:E1; [discriminate|].
+  destruct (parse_blocks (Z.to_nat (zlen data) + 1) (zskipn 56 data)) as [blocks| | |] eqn:EB;
+    cbn [bind]; try discriminate.
+  destruct (set_polarity pol (fv_polarity (rd 44 4 data))) as [pol1|] eqn:EP; [|discriminate].
+  destruct (zlen data <? rd 32 8 data) eqn:E2; [discriminate|].
+  destruct (rd 32 8 data <? 64) eqn:E3; [discriminate|].
+  destruct (supported_fv (sub 16 16 data)) eqn:ES; cbn [negb].
+  - destruct (files_loop rf (Z.to_nat (zlen data) + 1) data (rd 32 8 data) pol1 _)
+      as [[[files pol2] fs]| | |] eqn:EL; cbn [bind]; try discriminate.
+    intros H. apply Ok_inj in H. injection H as <- <-.
+    exists blocks, pol1, files, fs.
+    split; [reflexivity|]. split; [reflexivity|]. split; [reflexivity|]. split; [lia|]. split; [lia|].
+    right. split; [reflexivity|]. exact EL.
+  - intros H. apply Ok_inj in H. injection H as <- <-.
+    exists blocks, pol1, [], 0.
+    split; [reflexivity|]. split; [reflexivity|]. split; [reflexivity|]. split; [lia|]. split; [lia|].
+    left. split; reflexivity.
+Qed.
+
+Lemma zlen_zfirstn_min {A} n (l : list A) : 0 <= n -> zlen (zfirstn n l) = Z.min n (zlen l).
+Proof. intros. unfold zlen, zfirstn. rewrite firstn_length. lia. Qed.
+
+Lemma prefix_len_ge {A} (b b2 : list A) E n : zfirstn E b2 = zfirstn E b -> 0 <= n <= E ->
+  n <= zlen b -> n <= zlen b2.
+Proof.
+  intros HE Hn Hb. assert (K : zlen (zfirstn E b2) = zlen (zfirstn E b)) by (rewrite HE; reflexivity).
+  rewrite !zlen_zfirstn_min in K by lia. lia.
+Qed.
+
+(* the block map is determined by the bytes up to and including its terminator *)
+Lemma parse_blocks_prefix fuel : forall b b2 l, parse_blocks fuel b = Ok l ->
+  zfirstn (8 * (zlen l + 1)) b2 = zfirstn (8 * (zlen l + 1)) b -> parse_blocks fuel b2 = Ok l.
+Proof.
+  induction fuel as [|fuel IH]; intros b b2 l; cbn [parse_blocks]; [discriminate|].
+  destruct (zlen b <? 8) eqn:E1; [discriminate|].
+  intros H HE. pose proof (zlen_nonneg l) as Hl.
+  assert (L2 : 8 <= zlen b2) by (eapply (prefix_len_ge b b2); [exact HE| |]; lia).
+  replace (zlen b2 <? 8) with false by lia.
+  rewrite (rd_prefix b2 b _ 0 4 HE) by lia.
+  rewrite (rd_prefix b2 b _ 4 4 HE) by lia.
+  destruct ((rd 0 4 b =? 0) && (rd 4 4 b =? 0)) eqn:ET; [exact H|].
+  destruct (parse_blocks fuel (zskipn 8 b)) as [l0| | |] eqn:R; cbn [bind] in H; try discriminate.
+  apply Ok_inj in H. subst l. rewrite zlen_cons in HE.
+  rewrite (IH (zskipn 8 b) (zskipn 8 b2) l0 R); [reflexivity|].
+  pose proof (zlen_nonneg l0).
+  change (zfirstn (8 * (zlen l0 + 1)) (zskipn 8 b2)) with (sub 8 (8 * (zlen l0 + 1)) b2).
+  change (zfirstn (8 * (zlen l0 + 1)) (zskipn 8 b)) with (sub 8 (8 * (zlen l0 + 1)) b).
+  eapply sub_prefix; [exact HE| |]; lia.
+Qed.
+
+Lemma sub0_sub0 (b : bytes) H L : 0 <= H <= L -> sub 0 H (sub 0 L b) = sub 0 H b.
+Proof.
+  intros HL. unfold sub at 2. change (zskipn 0 b) with b. apply sub_zfirstn; lia.
+Qed.
+
+Lemma zlen_sub0 (b : bytes) L : 0 <= L <= zlen b -> zlen (sub 0 L b) = L.
+Proof. intros. apply zlen_sub; lia. Qed.
+
+(* C09_fv_header_detects *)
+Lemma fv_header_detects rf rf' pol pol2 b b' fvoff fvoff' res res' h buf kids pol' i :
+  fv_body rf pol b fvoff res = Ok (NVol h buf kids, pol') ->
+  validate_vol h buf = Ok [] ->
+  single_change b i b' -> i < v_hdrlen h -> ~ (40 <= i < 44) ->
+  forall r, fv_body rf' pol2 b' fvoff' res' = Ok r -> reports (fst r).
+Proof.
+  intros HP HV HS Hi Hsig [n' pol''] HP'.
+  destruct (fv_body_inv _ _ _ _ _ _ _ HP) as (blocks & pol1 & kids0 & fs & Hn & HB & _ & L0 & L1 & _).
+  injection Hn as -> -> ->.
+  destruct (fv_body_inv _ _ _ _ _ _ _ HP') as (blocks' & pol1' & kids' & fs' & -> & HB' & _ & L0' & L1' & _).
+  cbn [fst].
+  destruct (validate_vol_total (fv_hdr b' fvoff' res' blocks' fs') (sub 0 (rd 32 8 b') b')) as [l Hl].
+  destruct l as [|e l]; [|eapply reports_vol_self; [exact Hl|discriminate]].
+  exfalso.
+  apply validate_vol_clean in HV. apply validate_vol_clean in Hl.
+  cbn [fv_hdr v_hdrlen v_blocks v_length] in HV, Hl, Hi.
+  destruct HV as (V1 & V2 & _ & _ & _ & V6 & V7).
+  destruct Hl as (W1 & W2 & _ & _ & _ & W6 & W7).
+  rewrite zlen_sub0 in V1, V6 by lia. rewrite zlen_sub0 in W1, W6 by lia.
+  pose proof (single_change_range _ _ _ HS) as Ri.
+  pose proof (single_change_len _ _ _ HS) as Len.
+  pose proof (zlen_nonneg blocks) as Nb. pose proof (zlen_nonneg blocks') as Nb'.
+  destruct (Z_lt_ge_dec i 48) as [Hlo|Hge48]; [|destruct (Z_lt_ge_dec i 50) as [H50|Hhi]].
+  3: {
+    (* fields after HeaderLen (or the block map): the length field is unchanged, checksum decides *)
+    assert (EH : rd 48 2 b' = rd 48 2 b) by (eapply single_change_rd_same; [exact HS|lia|lia]).
+    rewrite EH in *. rewrite sub0_sub0 in V7, W7 by lia.
+    destruct (single_change_sub b i b' 0 (rd 48 2 b) HS ltac:(lia) ltac:(lia))
+      as (p & x & y & s & Eb & Eb' & _ & Hne & Hx & Hy).
+    rewrite Eb in V7. rewrite Eb' in W7.
+    refine (sum16_single_change_zero p x y s _ Hx Hy Hne V7 W7).
+    rewrite <- Eb. rewrite zlen_sub0 by lia. rewrite V2.
+    rewrite Z.even_add. rewrite Z.even_mul. reflexivity. }
+  2: {
+    (* the HeaderLen field itself: the block map is unchanged, so the expected length is the old one *)
+    assert (ED : rd 48 2 b' <> rd 48 2 b) by (eapply single_change_rd_diff; [exact HS|lia|lia]).
+    assert (EB : blocks' = blocks).
+    { assert (K : parse_blocks (Z.to_nat (zlen b') + 1) (zskipn 56 b') = Ok blocks).
+      { rewrite Len. eapply parse_blocks_prefix; [exact HB|].
+        change (zfirstn (8 * (zlen blocks + 1)) (zskipn 56 b')) with (sub 56 (8 * (zlen blocks + 1)) b').
+        change (zfirstn (8 * (zlen blocks + 1)) (zskipn 56 b)) with (sub 56 (8 * (zlen blocks + 1)) b).
+        eapply single_change_sub_same; [exact HS|lia|right; lia]. }
+      congruence. }
+    subst blocks'. lia. }
+  (* fields before HeaderLen *)
+  assert (EH : rd 48 2 b' = rd 48 2 b) by (eapply single_change_rd_same; [exact HS|lia|lia]).
+  rewrite EH in *. rewrite sub0_sub0 in V7, W7 by lia.
+  destruct (single_change_sub b i b' 0 (rd 48 2 b) HS ltac:(lia) ltac:(lia))
+    as (p & x & y & s & Eb & Eb' & _ & Hne & Hx & Hy).
+  rewrite Eb in V7. rewrite Eb' in W7.
+  refine (sum16_single_change_zero p x y s _ Hx Hy Hne V7 W7).
+  rewrite <- Eb. rewrite zlen_sub0 by lia. rewrite V2.
+  rewrite Z.even_add. rewrite Z.even_mul. reflexivity.
+Qed.
+
+(* ================= Part E: files ================= *)
+
+(* ---- E.1 the file parser: unfolding, inversion, locality ---- *)
+
+Definition is_free_marker (pol : Z) (buf : bytes) : bool :=
+  (rd 20 3 buf =? 16777215) &&
+  (if zlen buf <? 32 then forallb (fun x => x =? pol) buf else rd 24 8 buf =? U64 - 1).
+
+(* the side condition of the file-header theorems: the altered header reads as the start of the
+   volume free space (size FFFFFF and extended size FFFFFFFFFFFFFFFF) *)
+Definition becomes_free_marker (buf : bytes) : Prop :=
+  rd 20 3 buf = 16777215 /\ 32 <= zlen buf /\ rd 24 8 buf = U64 - 1.
+
+Definition file_ext_of (buf : bytes) : Z :=
+  if rd 20 3 buf =? 16777215 then rd 24 8 buf else rd 20 3 buf.
+Definition file_doff_of (buf : bytes) : Z := if rd 20 3 buf =? 16777215 then 32 else 24.
+Definition file_hdr_gen (buf : bytes) (ext doff : Z) (nv : option bytes) : filehdr :=
+  mkFile (sub 0 16 buf) (rd 16 1 buf) (rd 17 1 buf) (rd 18 1 buf) (rd 19 1 buf) (rd 20 3 buf)
+         (rd 23 1 buf) ext doff nv.
+Definition file_hdr_of (buf : bytes) (nv : option bytes) : filehdr :=
+  file_hdr_gen buf (file_ext_of buf) (file_doff_of buf) nv.
+
+Definition file_tail (nvar : bytes -> option bytes) (rs : Z -> bytes -> Z -> outcome (node * Z))
+  (pol : Z) (buf : bytes) (ext doff : Z) : outcome (option node * Z) :=
+  if zlen buf <? ext then Err E_SIZE else
+  let fbuf := sub 0 ext buf in
+  do nv <-
+    (if (rd 18 1 buf =? 1) && bytes_eqb (sub 0 16 buf) NVAR_GUID then
+       if zlen fbuf <=? doff then Err E_BEYOND else Ok (nvar (zskipn doff fbuf))
+     else Ok None);
+  let h := file_hdr_gen buf ext doff nv in
+  if negb (supported_file (rd 18 1 buf)) then Ok (Some (NFile h fbuf []), pol) else
+  do kp <- sections_loop rs (Z.to_nat ext + 1) fbuf pol doff 0;
+  let '(kids, pol') := kp in
+  Ok (Some (NFile h fbuf kids), pol').
+
+Lemma file_body_unfold nvar rs pol buf : file_body nvar rs pol buf =
+  if zlen buf <? 24 then Err E_SHORT else
+  if rd 20 3 buf =? 16777215 then
+    if zlen buf <? 32 then
+      if forallb (fun x => x =? pol) buf then Ok (None, pol) else Err E_SHORT
+    else if rd 24 8 buf =? U64 - 1 then Ok (None, pol)
+         else file_tail nvar rs pol buf (rd 24 8 buf) 32
+  else file_tail nvar rs pol buf (rd 20 3 buf) 24.
+Proof.
+  unfold file_body, file_tail, file_hdr_gen. cbv zeta.
+  destruct (zlen buf <? 24); [reflexivity|].
+  destruct (rd 20 3 buf =? 16777215).
+  - destruct (zlen buf <? 32).
+    + destruct (forallb (fun x => x =? pol) buf); cbn [bind]; [|reflexivity].
+      rewrite Z.eqb_refl. reflexivity.
+    + cbn [bind andb]. reflexivity.
+  - cbn [bind andb]. reflexivity.
+Qed.
+
+Lemma file_tail_inv nvar rs pol buf ext doff r : file_tail nvar rs pol buf ext doff = Ok r ->
+  ext <= zlen buf /\
+  exists nv kids pol', r = (Some (NFile (file_hdr_gen buf ext doff nv) (sub 0 ext buf) kids), pol').
+Proof.
+  unfold file_tail. cbv zeta.
+  destruct (zlen buf <? ext) eqn:E1; [discriminate|].
+  destruct ((rd 18 1 buf =? 1) && bytes_eqb (sub 0 16 buf) NVAR_GUID).
+  - destruct (zlen (sub 0 ext buf) <=? doff); cbn [bind]; [discriminate|].
+    destruct (negb (supported_file (rd 18 1 buf))).
+    + intros H; apply Ok_inj in H. subst r. split; [lia|]. eauto.
+    + destruct (sections_loop rs _ _ _ _ _) as [[kids pol']| | |]; cbn [bind]; try discriminate.
+      intros H; apply Ok_inj in H. subst r. split; [lia|]. eauto.
+  - cbn [bind]. destruct (negb (supported_file (rd 18 1 buf))).
+    + intros H; apply Ok_inj in H. subst r. split; [lia|]. eauto.
+    + destruct (sections_loop rs _ _ _ _ _) as [[kids pol']| | |]; cbn [bind]; try discriminate.
+      intros H; apply Ok_inj in H. subst r. split; [lia|]. eauto.
+Qed.
+
+Lemma file_body_inv nvar rs pol buf r : file_body nvar rs pol buf = Ok r ->
+  24 <= zlen buf /\
+  ((is_free_marker pol buf = true /\ r = (None, pol)) \/
+   (is_free_marker pol buf = false /\ (rd 20 3 buf = 16777215 -> 32 <= zlen buf) /\
+    file_ext_of buf <= zlen buf /\
+    exists nv kids pol',
+      r = (Some (NFile (file_hdr_of buf nv) (sub 0 (file_ext_of buf) buf) kids), pol'))).
+Proof.
+  rewrite file_body_unfold. unfold is_free_marker, file_hdr_of, file_ext_of, file_doff_of.
+  destruct (zlen buf <? 24) eqn:E24; [discriminate|].
+  destruct (rd 20 3 buf =? 16777215) eqn:ES; cbn [andb].
+  - destruct (zlen buf <? 32) eqn:E32.
+    + destruct (forallb (fun x => x =? pol) buf); [|discriminate].
+      intros H; apply Ok_inj in H. split; [lia|]. left. auto.
+    + destruct (rd 24 8 buf =? U64 - 1) eqn:EM.
+      * intros H; apply Ok_inj in H. split; [lia|]. left. auto.
+      * intros H. apply file_tail_inv in H as (H1 & H2). split; [lia|]. right.
+        repeat split; auto; lia.
+  - intros H. apply file_tail_inv in H as (H1 & H2). split; [lia|]. right.
+    repeat split; auto; lia.
+Qed.
+
+(* the file parser looks at the first [ext] bytes only (when the header lies inside them) *)
+Lemma file_tail_prefix nvar rs pol buf buf2 ext doff :
+  zfirstn ext buf2 = zfirstn ext buf -> zlen buf2 = zlen buf -> 24 <= ext ->
+  file_tail nvar rs pol buf2 ext doff = file_tail nvar rs pol buf ext doff.
+Proof.
+  intros HE HL H24. unfold file_tail, file_hdr_gen. cbv zeta. rewrite HL.
+  assert (S0 : sub 0 ext buf2 = sub 0 ext buf) by (unfold sub; exact HE).
+  rewrite S0.
+  rewrite (sub_prefix buf2 buf ext 0 16 HE) by lia.
+  rewrite (rd_prefix buf2 buf ext 16 1 HE) by lia.
+  rewrite (rd_prefix buf2 buf ext 17 1 HE) by lia.
+  rewrite (rd_prefix buf2 buf ext 18 1 HE) by lia.
+  rewrite (rd_prefix buf2 buf ext 19 1 HE) by lia.
+  rewrite (rd_prefix buf2 buf ext 20 3 HE) by lia.
+  rewrite (rd_prefix buf2 buf ext 23 1 HE) by lia.
+  reflexivity.
+Qed.
+
+Lemma file_body_prefix nvar rs pol buf buf2 h fbuf kids pol' :
+  file_body nvar rs pol buf = Ok (Some (NFile h fbuf kids), pol') ->
+  file_hs h <= f_ext h ->
+  (f_size3 h = 16777215 -> attr_large (f_attr h) = true) ->
+  zfirstn (f_ext h) buf2 = zfirstn (f_ext h) buf -> zlen buf2 = zlen buf ->
+  file_body nvar rs pol buf2 = Ok (Some (NFile h fbuf kids), pol').
+Proof.
+  intros HP Hhs Hl HE HL.
+  destruct (file_body_inv _ _ _ _ _ HP) as (L24 & [[_ K]|(FM & L32 & Lext & nv & kids0 & pol0 & K)]);
+    [discriminate|].
+  injection K as -> -> -> ->. unfold file_hs in Hhs.
+  cbn [file_hdr_of file_hdr_gen f_ext f_size3 f_attr] in *.
+  rewrite <- HP. rewrite !file_body_unfold. rewrite HL.
+  assert (E24 : 24 <= file_ext_of buf) by (destruct (attr_large _); lia).
+  rewrite (rd_prefix buf2 buf _ 20 3 HE) by lia.
+  destruct (zlen buf <? 24); [reflexivity|].
+  unfold file_ext_of in *.
+  destruct (rd 20 3 buf =? 16777215) eqn:ES.
+  - assert (E32 : 32 <= rd 24 8 buf).
+    { rewrite Hl in Hhs by lia. exact Hhs. }
+    replace (zlen buf <? 32) with false by lia.
+    rewrite (rd_prefix buf2 buf _ 24 8 HE) by lia.
+    destruct (rd 24 8 buf =? U64 - 1); [reflexivity|].
+    apply file_tail_prefix; auto.
+  - apply file_tail_prefix; auto.
+Qed.
+
+(* ---- E.2 detection at the level of one file ---- *)
+
+Lemma mod256_cancel a a' c : 0 <= a < 256 -> 0 <= a' < 256 ->
+  (a - c) mod 256 = 0 -> (a' - c) mod 256 = 0 -> a = a'.
+Proof.
+  intros Ha Ha' H H'.
+  destruct (mod_eq_diff 256 (a - c) (a' - c) ltac:(lia) ltac:(congruence)) as [k Hk]. lia.
+Qed.
+
+Lemma mod256_cancel_add a a' c : 0 <= a < 256 -> 0 <= a' < 256 ->
+  (a + c) mod 256 = 0 -> (a' + c) mod 256 = 0 -> a = a'.
+Proof.
+  intros Ha Ha' H H'.
+  destruct (mod_eq_diff 256 (a + c) (a' + c) ltac:(lia) ltac:(congruence)) as [k Hk]. lia.
+Qed.
+
+Lemma sub_sub0 (b : bytes) a l L : 0 <= a -> a + l <= L -> sub a l (sub 0 L b) = sub a l b.
+Proof.
+  intros Ha HL. unfold sub at 2. change (zskipn 0 b) with b. apply sub_zfirstn; lia.
+Qed.
+
+Lemma forallb_firstn {A} (P : A -> bool) n l : forallb P l = true -> forallb P (firstn n l) = true.
+Proof.
+  revert l; induction n as [|n IH]; intros [|x l]; simpl; auto.
+  intros H. apply andb_true_iff in H as [-> H]. simpl. auto.
+Qed.
+
+Lemma forallb_skipn {A} (P : A -> bool) n l : forallb P l = true -> forallb P (skipn n l) = true.
+Proof.
+  revert l; induction n as [|n IH]; intros [|x l]; simpl; auto.
+  intros H. apply andb_true_iff in H as [_ H]. auto.
+Qed.
+
+Lemma all_eq_repeat v (l : bytes) : forallb (fun x => x =? v) l = true -> l = repeatz v (length l).
+Proof.
+  induction l as [|x l IH]; [reflexivity|]. cbn [forallb length repeatz].
+  intros H. apply andb_true_iff in H as [E H]. apply Z.eqb_eq in E. subst x. f_equal. auto.
+Qed.
+
+Lemma all_eq_sub v (l : bytes) off len : forallb (fun x => x =? v) l = true ->
+  0 <= off -> 0 <= len -> off + len <= zlen l -> sub off len l = zrepeat v len.
+Proof.
+  intros H H0 H1 H2. unfold zrepeat.
+  assert (K : forallb (fun x => x =? v) (sub off len l) = true)
+    by (unfold sub, zfirstn, zskipn; apply forallb_firstn, forallb_skipn, H).
+  rewrite (all_eq_repeat v _ K). f_equal.
+  pose proof (zlen_sub off len l H0 H1 H2) as L. unfold zlen in L. lia.
+Qed.
+
+Definition prot_hdr (large : bool) (j : Z) : Prop :=
+  0 <= j < 17 \/ 18 <= j < 23 \/ (large = true /\ 24 <= j < 32).
+
+Lemma attr_large_255 : attr_large 255 = true.
+Proof. reflexivity. Qed.
+
+(* a changed header byte cannot produce the short all-erased tail *)
+Lemma short_marker_impossible fb fb' j pol2 nv :
+  validate_file (file_hdr_of fb nv) (sub 0 (file_ext_of fb) fb) = Ok [] ->
+  file_ext_of fb <= zlen fb -> 24 <= zlen fb ->
+  single_change fb j fb' -> 0 <= j < 23 ->
+  zlen fb' < 32 -> rd 20 3 fb' = 16777215 -> forallb (fun x => x =? pol2) fb' = true -> False.
+Proof.
+  intros HV Lext L24 HS Hj Hshort Hsz Hall.
+  pose proof (single_change_len _ _ _ HS) as Len.
+  apply validate_file_clean in HV. destruct HV as (C1 & C2 & C3 & _).
+  unfold file_hs in C1. cbn [file_hdr_of file_hdr_gen f_attr f_size3 f_ext] in C1, C2, C3.
+  assert (E3 : rd 20 3 fb' = pol2 + 256 * (pol2 + 256 * (pol2 + 0))).
+  { unfold rd. rewrite (all_eq_sub pol2 fb' 20 3 Hall) by lia. reflexivity. }
+  assert (E1 : rd 19 1 fb' = pol2 + 0).
+  { unfold rd. rewrite (all_eq_sub pol2 fb' 19 1 Hall) by lia. reflexivity. }
+  assert (P : pol2 = 255) by lia. subst pol2.
+  assert (Hnl : attr_large (rd 19 1 fb) = false).
+  { destruct (attr_large (rd 19 1 fb)); [|reflexivity].
+    assert (zlen (sub 0 (file_ext_of fb) fb) <= zlen fb).
+    { destruct (Z_le_gt_dec 0 (file_ext_of fb)).
+      - rewrite zlen_sub0 by lia. lia.
+      - unfold sub, zfirstn. replace (Z.to_nat (file_ext_of fb)) with O by lia.
+        change (zlen (firstn 0 (zskipn 0 fb))) with 0. lia. }
+    lia. }
+  destruct (Z.eq_dec j 19) as [->|Hn19].
+  - assert (ES : rd 20 3 fb' = rd 20 3 fb) by (eapply single_change_rd_same; [exact HS|lia|right; lia]).
+    rewrite Hsz in ES. symmetry in ES. apply C3 in ES. congruence.
+  - assert (EA : rd 19 1 fb' = rd 19 1 fb).
+    { eapply single_change_rd_same; [exact HS|lia|]. destruct (Z_lt_ge_dec j 19); [right|left]; lia. }
+    rewrite <- EA, E1 in Hnl. change (255 + 0) with 255 in Hnl. rewrite attr_large_255 in Hnl. discriminate.
+Qed.
+
+(* C09_file_header_detects, local form *)
+Lemma file_header_detects_local nvar rs nvar2 rs2 pol pol2 fb fb' j h fbuf kids pol' :
+  file_body nvar rs pol fb = Ok (Some (NFile h fbuf kids), pol') ->
+  validate_file h fbuf = Ok [] ->
+  single_change fb j fb' -> prot_hdr (attr_large (f_attr h)) j ->
+  ~ becomes_free_marker fb' ->
+  forall r, file_body nvar2 rs2 pol2 fb' = Ok r -> exists f', fst r = Some f' /\ reports f'.
+Proof.
+  intros HP HV HS Hj Hfm r HP'.
+  destruct (file_body_inv _ _ _ _ _ HP) as (L24 & [[_ K]|(FM & L32 & Lext & nv & kids0 & pol0 & K)]);
+    [discriminate|].
+  injection K as -> -> -> ->.
+  pose proof (single_change_len _ _ _ HS) as Len.
+  pose proof HV as HC. apply validate_file_clean in HC.
+  destruct HC as (C1 & C2 & C3 & _ & C5 & _).
+  unfold file_hs in C1, C5. cbn [file_hdr_of file_hdr_gen f_attr f_size3 f_ext f_ckf f_state] in C1, C2, C3, C5, Hj.
+  assert (Lext0 : 24 <= file_ext_of fb) by (destruct (attr_large (rd 19 1 fb)); lia).
+  rewrite zlen_sub0 in C1 by lia.
+  assert (Hj32 : j < (if attr_large (rd 19 1 fb) then 32 else 24)).
+  { destruct Hj as [?|[?|[-> ?]]]; [destruct (attr_large _); lia|destruct (attr_large _); lia|lia]. }
+  destruct (file_body_inv _ _ _ _ _ HP') as (L24' & [[FM' _]|(FM' & L32' & Lext' & nv' & kids' & pol'' & ->)]).
+  { (* the altered header is the free-space marker *)
+    exfalso. unfold is_free_marker in FM'. apply andb_true_iff in FM' as [Es FM'].
+    apply Z.eqb_eq in Es.
+    destruct (zlen fb' <? 32) eqn:E32.
+    - assert (Hl : attr_large (rd 19 1 fb) = false).
+      { destruct (attr_large (rd 19 1 fb)); [lia|reflexivity]. }
+      rewrite Hl in Hj32.
+      eapply (short_marker_impossible fb fb' j pol2 nv); eauto; try lia.
+      pose proof (single_change_range _ _ _ HS). lia.
+    - apply Hfm. split; [exact Es|]. split; [lia|]. apply Z.eqb_eq. exact FM'. }
+  cbn [fst]. eexists; split; [reflexivity|].
+  destruct (validate_file_total true (file_hdr_of fb' nv') (sub 0 (file_ext_of fb') fb')) as [l Hl].
+  destruct l as [|e l]; [|eapply reports_file_self; [exact Hl|discriminate]].
+  exfalso. apply validate_file_clean in Hl.
+  destruct Hl as (D1 & D2 & D3 & _ & D5 & _).
+  unfold file_hs in D1, D5. cbn [file_hdr_of file_hdr_gen f_attr f_size3 f_ext f_ckf f_state] in D1, D2, D3, D5.
+  assert (Lext0' : 24 <= file_ext_of fb') by (destruct (attr_large (rd 19 1 fb')); lia).
+  rewrite zlen_sub0 in D1 by lia.
+  pose proof (single_change_range _ _ _ HS) as Rj.
+  (* the large attribute is the same before and after *)
+  assert (EL : attr_large (rd 19 1 fb') = attr_large (rd 19 1 fb)).
+  { destruct (Z.eq_dec j 19) as [->|Hn19].
+    - assert (ES : rd 20 3 fb' = rd 20 3 fb) by (eapply single_change_rd_same; [exact HS|lia|right; lia]).
+      rewrite ES in D3.
+      destruct (attr_large (rd 19 1 fb')), (attr_large (rd 19 1 fb)); auto.
+      + symmetry. apply C3. apply D3. reflexivity.
+      + apply D3. apply C3. reflexivity.
+    - f_equal. eapply single_change_rd_same; [exact HS|lia|].
+      destruct (Z_lt_ge_dec j 19); [right|left]; lia. }
+  rewrite EL in *.
+  set (HSZ := if attr_large (rd 19 1 fb) then 32 else 24) in *.
+  assert (HSZ0 : 24 <= HSZ <= 32) by (subst HSZ; destruct (attr_large _); lia).
+  rewrite sub0_sub0 in C5, D5 by lia.
+  assert (EK : rd 17 1 fb' = rd 17 1 fb).
+  { eapply single_change_rd_same; [exact HS|lia|].
+    destruct Hj as [?|[?|[_ ?]]]; [right|left|left]; lia. }
+  assert (ET : rd 23 1 fb' = rd 23 1 fb).
+  { eapply single_change_rd_same; [exact HS|lia|].
+    destruct Hj as [?|[?|[_ ?]]]; [right|right|left]; lia. }
+  rewrite EK, ET in D5.
+  destruct (single_change_sub fb j fb' 0 HSZ HS ltac:(lia) ltac:(lia))
+    as (p & x & y & s & Eb & Eb' & _ & Hne & Hx & Hy).
+  rewrite Eb in C5. rewrite Eb' in D5.
+  apply (sum8_single_change p x y s Hx Hy Hne).
+  eapply mod256_cancel; [apply sum8_range|apply sum8_range| |]; [|exact D5].
+  replace (sum8 (p ++ x :: s) - (rd 17 1 fb + rd 23 1 fb)) with (sum8 (p ++ x :: s) - rd 17 1 fb - rd 23 1 fb) by lia.
+  exact C5.
 Qed.
